@@ -10,6 +10,13 @@ Request messages are opaque identifiers (`ReqId`): the only thing the peers do w
 message besides reading the response definition of the first one is to echo it back.
 The response definition lives in the first request message; `TC.udef` / `TC.sdef` is that
 definition (`none` when the first message carries none).
+
+Connect GET (`use_get_http_method`, method `IdempotentUnary`): the expectation of a unary /
+client-stream case then lists the query parameters `encoding=<codec>` and `connect=v1`
+(`getQuery`); what the server's RPC library presents as query parameters is a component of the
+transport (`Wire.query`) that every `createRequestInfo` echoes.  The `Unimplemented` method has no
+response definition: nothing can be derived for it (`populate` rejects unless the suite gives the
+expected response itself) and both servers answer `unimplemented` without looking at the request.
 -/
 namespace ConfModel.Echo
 
@@ -20,10 +27,13 @@ deriving DecidableEq, Repr, Inhabited
 
 abbrev ReqId := Nat
 
-/-- `ConformancePayload.RequestInfo` without timeout / query parameters (outside the fragment) -/
+/-- `ConformancePayload.RequestInfo` without timeout (outside the fragment); `query` are the
+`connect_get_info.query_params` (`[]`: no `ConnectGetInfo`, or one that lists nothing — the code
+only ever asks for `len(...GetQueryParams())`) -/
 structure ReqInfo where
   hdrs : List Hdr
   reqs : List ReqId
+  query : List Hdr
 deriving DecidableEq, Repr, Inhabited
 
 /-- an error detail: an arbitrary registered message (other) or a `RequestInfo` -/
@@ -61,19 +71,6 @@ inductive ST
   | unary | clientStream | serverStream | halfDuplex | fullDuplex
 deriving DecidableEq, Repr, Inhabited
 
-/-- a test case of the deterministic fragment -/
-structure TC where
-  st : ST
-  reqHdrs : List Hdr
-  reqs : List ReqId
-  /-- response definition carried by the first request message (unary / client stream) -/
-  udef : Option UnaryDef
-  /-- response definition carried by the first request message (server / bidi stream) -/
-  sdef : Option StreamDef
-  /-- `full_duplex` field of the first `BidiStreamRequest` (what the server looks at) -/
-  fdFlag : Bool
-deriving DecidableEq, Repr, Inhabited
-
 structure Payload where
   data : String
   info : Option ReqInfo
@@ -87,13 +84,55 @@ structure Result where
   err : Option Err
 deriving DecidableEq, Repr, Inhabited
 
+/-- the permutation's codec, as far as the generator looks at it (`CODEC_JSON` or anything else) -/
+inductive Codec
+  | proto | json
+deriving DecidableEq, Repr, Inhabited
+
+/-- value of the `encoding` query parameter the generator expects -/
+def Codec.encoding : Codec → String
+  | .json => "json"
+  | .proto => "proto"
+
+/-- the method called: the stream type's default method (`Unary`, `ClientStream`, `ServerStream`,
+`BidiStream` — given explicitly or filled in by the runner), `IdempotentUnary`, or `Unimplemented` -/
+inductive Method
+  | std | idempotent | unimplemented
+deriving DecidableEq, Repr, Inhabited
+
+/-- a test case of the deterministic fragment -/
+structure TC where
+  st : ST
+  reqHdrs : List Hdr
+  reqs : List ReqId
+  /-- response definition carried by the first request message (unary / client stream) -/
+  udef : Option UnaryDef
+  /-- response definition carried by the first request message (server / bidi stream) -/
+  sdef : Option StreamDef
+  /-- `full_duplex` field of the first `BidiStreamRequest` (what the server looks at) -/
+  fdFlag : Bool
+  /-- `use_get_http_method` -/
+  get : Bool
+  /-- the permutation's codec -/
+  codec : Codec
+  method : Method
+  /-- an `expected_response` given by the suite itself -/
+  explicit : Option Result
+deriving DecidableEq, Repr, Inhabited
+
 def Err.addDetail (e : Err) (d : Detail) : Err := { e with details := e.details ++ [d] }
 
 /-! ### the generator: `populateExpectedResponse` -/
 
+/-- the `ConnectGetInfo` branch of `populateExpectedUnaryResponse`: for a GET test the query
+parameters `encoding` (by codec) and `connect=v1`; "message", "base64" and "compression" are
+deliberately not expected -/
+def getQuery (tc : TC) : List Hdr :=
+  if tc.get then [⟨"encoding", [tc.codec.encoding]⟩, ⟨"connect", ["v1"]⟩] else []
+
 /-- `populateExpectedUnaryResponse` (unary and client-stream) -/
 def expectedUnary (tc : TC) : Result :=
-  let ri : ReqInfo := ⟨tc.reqHdrs, tc.reqs⟩
+  let ri : ReqInfo := ⟨tc.reqHdrs, tc.reqs, getQuery tc⟩
   match (if tc.reqs.isEmpty then none else tc.udef) with
   | none => ⟨[], [], [⟨"", some ri⟩], none⟩
   | some d =>
@@ -113,9 +152,9 @@ def expectedStreamPayloads (tc : TC) : Nat → List String → List Payload
       match tc.st with
       | .fullDuplex =>
         match tc.reqs[idx]? with
-        | some r => some ⟨if idx = 0 then tc.reqHdrs else [], [r]⟩
+        | some r => some ⟨if idx = 0 then tc.reqHdrs else [], [r], []⟩
         | none => none
-      | _ => if idx = 0 then some ⟨tc.reqHdrs, tc.reqs⟩ else none
+      | _ => if idx = 0 then some ⟨tc.reqHdrs, tc.reqs, []⟩ else none
     ⟨b, info⟩ :: expectedStreamPayloads tc (idx + 1) bs
 
 /-- `populateExpectedStreamResponse` (server stream, half- and full-duplex bidi).  For an
@@ -126,7 +165,7 @@ def expectedStream (tc : TC) : Result :=
   match (if tc.reqs.isEmpty then none else tc.sdef) with
   | none => ⟨[], [], [], none⟩
   | some d =>
-    let err := if d.data.isEmpty then d.err.map (·.addDetail (.info ⟨tc.reqHdrs, tc.reqs⟩)) else d.err
+    let err := if d.data.isEmpty then d.err.map (·.addDetail (.info ⟨tc.reqHdrs, tc.reqs, []⟩)) else d.err
     ⟨d.hdrs, d.trls, expectedStreamPayloads tc 0 d.data, err⟩
 
 /-- the F07 shape: full-duplex, no responses, an error, two or more requests -/
@@ -138,10 +177,24 @@ def isF07 (tc : TC) : Bool :=
 def isF27 (tc : TC) : Bool :=
   (tc.st == .clientStream || tc.st == .halfDuplex || tc.st == .fullDuplex) && tc.reqs.isEmpty
 
+/-- what `populateExpectedUnaryResponse` / `populateExpectedStreamResponse` derive -/
 def expected (tc : TC) : Result :=
   match tc.st with
   | .unary | .clientStream => expectedUnary tc
   | _ => expectedStream tc
+
+/-- the type assertion on the first request message (`unaryResponseDefiner` /
+`streamResponseDefiner`): an `UnimplementedRequest` carries no response definition.  Without
+request messages nothing is asserted. -/
+def derivable (tc : TC) : Bool := tc.reqs.isEmpty || tc.method != .unimplemented
+
+/-- `populateExpectedResponse`: an expected response given by the suite is left alone; otherwise
+the derived one, or an error (`none`) when the first request message is not of a kind that
+defines a response. -/
+def populate (tc : TC) : Option Result :=
+  match tc.explicit with
+  | some e => some e
+  | none => if derivable tc then some (expected tc) else none
 
 /-! ### the peers: server handler composed with client observation
 
@@ -156,12 +209,17 @@ structure Wire where
   /-- on a unary / client-stream error some protocols deliver headers and trailers as one bag of
   error metadata, which the client records as trailers -/
   merged : List Hdr → List Hdr → List Hdr
+  /-- the query parameters the server's RPC library presents (`Peer().Query`): those of the GET
+  request line when the client chose GET, nothing for a POST -/
+  query : List Hdr
+  /-- wording of the `unimplemented` error of the server's RPC library -/
+  unimplMsg : String
 
 /-- unary and client-stream handlers (`doUnary`, `ClientStream`, `parseUnaryResponseDefinition`)
 followed by the client's `doUnary` / `clientStream`.  `mergedErr` selects the "one bag of error
 metadata" delivery. -/
 def actualUnary (tc : TC) (w : Wire) (mergedErr : Bool) : Result :=
-  let ri : ReqInfo := ⟨w.seen, tc.reqs⟩
+  let ri : ReqInfo := ⟨w.seen, tc.reqs, w.query⟩
   match (if tc.reqs.isEmpty then none else tc.udef) with
   | none => ⟨w.hdrs [], w.trls [], [⟨"", some ri⟩], none⟩
   | some d =>
@@ -180,12 +238,12 @@ def flushPayloads (ri : ReqInfo) : Nat → List String → List Payload
 
 /-- the ping-pong phase of a full-duplex `BidiStream`: one response per received request while
 responses are left; returns the payloads sent and the responses still to flush. -/
-def pingPong (seen : List Hdr) : Nat → List ReqId → List String → List Payload × List String
+def pingPong (seen query : List Hdr) : Nat → List ReqId → List String → List Payload × List String
   | _, [], data => ([], data)
   | _, _ :: _, [] => ([], [])
   | respNum, r :: rs, b :: bs =>
-    let p : Payload := ⟨b, some ⟨if respNum = 0 then seen else [], [r]⟩⟩
-    let (ps, rest) := pingPong seen (respNum + 1) rs bs
+    let p : Payload := ⟨b, some ⟨if respNum = 0 then seen else [], [r], if respNum = 0 then query else []⟩⟩
+    let (ps, rest) := pingPong seen query (respNum + 1) rs bs
     (p :: ps, rest)
 
 /-- `ServerStream` / `BidiStream` handlers followed by the client's `serverStream` / `bidiStream` -/
@@ -194,27 +252,37 @@ def actualStream (tc : TC) (w : Wire) : Result :=
   | none => ⟨w.hdrs [], w.trls [], [], none⟩
   | some d =>
     if tc.fdFlag then
-      let (pp, rest) := pingPong w.seen 0 tc.reqs d.data
+      let (pp, rest) := pingPong w.seen w.query 0 tc.reqs d.data
       -- the flush loop continues at respNum = pp.length > 0 whenever something is left
       let flushed := rest.map (fun b => (⟨b, none⟩ : Payload))
-      let err := if d.data.isEmpty then d.err.map (·.addDetail (.info ⟨w.seen, tc.reqs.take 1⟩)) else d.err
+      let err := if d.data.isEmpty then d.err.map (·.addDetail (.info ⟨w.seen, tc.reqs.take 1, w.query⟩)) else d.err
       ⟨w.hdrs d.hdrs, w.trls d.trls, pp ++ flushed, err⟩
     else
-      let ri : ReqInfo := ⟨w.seen, tc.reqs⟩
+      let ri : ReqInfo := ⟨w.seen, tc.reqs, w.query⟩
       let err := if d.data.isEmpty then d.err.map (·.addDetail (.info ri)) else d.err
       ⟨w.hdrs d.hdrs, w.trls d.trls, flushPayloads ri 0 d.data, err⟩
 
+/-- the `Unimplemented` method: neither reference server implements it; the RPC library answers
+`unimplemented` (code 12) in its own words, without details, whatever the request says -/
+def actualUnimpl (w : Wire) (mergedErr : Bool) : Result :=
+  if mergedErr then ⟨[], w.merged [] [], [], some ⟨12, some w.unimplMsg, []⟩⟩
+  else ⟨w.hdrs [], w.trls [], [], some ⟨12, some w.unimplMsg, []⟩⟩
+
+/-- both reference clients choose the call by the method name -/
 def actual (tc : TC) (w : Wire) (mergedErr : Bool) : Result :=
+  if tc.method = .unimplemented then actualUnimpl w mergedErr else
   match tc.st with
   | .unary | .clientStream => actualUnary tc w mergedErr
   | _ => actualStream tc w
 
 /-- shape constraints of the fragment: exactly one request for unary and server-stream, the
-`full_duplex` flag of the first message agrees with the declared stream type -/
+`full_duplex` flag of the first message agrees with the declared stream type, and the two extra
+methods of the service are unary (service.proto) -/
 def WellFormed (tc : TC) : Bool :=
   (match tc.st with
    | .unary | .serverStream => tc.reqs.length == 1
    | _ => true) &&
-  (tc.fdFlag == (tc.st == .fullDuplex))
+  (tc.fdFlag == (tc.st == .fullDuplex)) &&
+  (tc.method == .std || tc.st == .unary)
 
 end ConfModel.Echo
